@@ -63,6 +63,8 @@ EXPLANATION = ("Every evaluation is one real dataiter.dt / dataiter.regex / prox
                "(missing positions through Vector.is_na of the result) and compared with the same call on Python's datetime / re for that element. "
                "'states' counts distinct input vectors and distinct result vectors.")
 TIME_CAP = {"quick": 300, "thorough": 3000}
+BOUND["quick"] += '; the small shards also in other array forms (NumPy StringDType, product of concat, other byte order; thorough: strided, product of a fancy index)'
+BOUND["thorough"] += "; plus the additions listed for the quick tier"
 
 UNITS = ["D", "h", "m", "s", "ms", "us"]
 
